@@ -30,6 +30,8 @@ BUNDLES = {
     "core": [suites.gen_counter, suites.gen_ticket, suites.rand_suite],
     "panic": [suites.panic_suite],
     "freeze": [suites.freeze_suite],
+    "lowlevel": [suites.lowlevel_suite],
+    "multi": [suites.multi_suite],
 }
 
 
@@ -153,7 +155,53 @@ def run_pair_bundle(name, tier, seed, specs=ALL_SPECS):
     return res
 
 
+def run_boundary_bundle(tier, seed):
+    """C16: boundary scripts executed by both build profiles, validated against the ideal cursor (TraceBoundary)."""
+    key = "bnd_%s_%d_%s_%s" % (tier, seed, engine.repo_hash(), engine.verif_hash())
+    c = engine.cache_get(key)
+    wa = os.path.join(WORK, "bundles", key + "_a")
+    wb = os.path.join(WORK, "bundles", key + "_b")
+    if c and os.path.isdir(wa) and os.path.isdir(wb):
+        c["cached"] = True
+        return c
+    t0 = time.time()
+    for d in (wa, wb):
+        if os.path.isdir(d):
+            shutil.rmtree(d)
+    sc, meta = suites.boundary_suite(tier, seed, 1)
+    parts_a, info_a = engine.run_scenarios(sc, wa, "rel")
+    parts_b, info_b = engine.run_scenarios(sc, wb, "dbg")
+    t1 = time.time()
+    va = engine.validate(parts_a, ("TraceBoundary",))
+    vb = engine.validate(parts_b, ("TraceBoundary",))
+    t2 = time.time()
+    runs = {}
+    for rid, events in engine.load_runs(parts_a).items():
+        f = facts_of(events)
+        f["side"] = "a"
+        f["big"] = any(e["e"] == "Call" and e["n"] >= 1000000000 for e in events)
+        f["start"], f["end"] = events[0]["start"], events[0]["end"]
+        runs[str(rid)] = f
+    for rid, events in engine.load_runs(parts_b).items():
+        f = facts_of(events)
+        f["side"] = "b"
+        f["big"] = any(e["e"] == "Call" and e["n"] >= 1000000000 for e in events)
+        f["start"], f["end"] = events[0]["start"], events[0]["end"]
+        runs["b%d" % rid] = f
+    viol = {"TraceProps": [], "TraceBoundary": [[v[0], v[1]] for v in va["TraceBoundary"]["viol"]]
+            + [["b%d" % v[0], v[1]] for v in vb["TraceBoundary"]["viol"]]}
+    res = {"name": "boundary", "tier": tier, "seed": seed, "workdir": wa, "workdir_b": wb, "nruns": len(runs),
+           "metas": {"boundary_suite": meta}, "info": [info_a, info_b], "viol": viol, "div": {},
+           "events": va["TraceBoundary"]["events"] + vb["TraceBoundary"]["events"], "seen": {},
+           "matched": {"TraceBoundary": [x + y for x, y in zip(va["TraceBoundary"]["matched"], vb["TraceBoundary"]["matched"])]},
+           "runs": runs, "wall": {"harness": round(t1 - t0, 1), "tlc": round(t2 - t1, 1)}, "cached": False}
+    engine.cache_put(key, res)
+    return res
+
+
 def get_bundle(name, tier, seed):
+    if name == "boundary":
+        return run_boundary_bundle(tier, seed)
     if name in ("dual", "twin"):
         return run_pair_bundle(name, tier, seed)
     return run_bundle(name, tier, seed)
@@ -224,25 +272,32 @@ PLANS = {
     "C02": dict(e1=CONC_E1 + ["counter_comp", "ticket_comp"], inv=["Inv_C02", "Inv_TicketIsPosition"], bundles=["core"]),
     "C03": dict(e1=CONC_E1 + ["ticket_owner"], inv=["Inv_C03"], bundles=["core"]),
     "C04": dict(e1=CONC_E1 + ["counter_skipq"], inv=["Inv_C04"], bundles=["core"]),
-    "C05": dict(e1=CONC_E1 + ["counter_skipq", "ticket_skip", "ticket_query"], inv=["Inv_C05", "Inv_NoWrap"], bundles=["core"]),
+    "C05": dict(e1=CONC_E1 + ["counter_skipq", "ticket_skip", "ticket_query", "ticket_revive"], inv=["Inv_C05", "Inv_NoWrap"], bundles=["core"], revive=True),
     "C06": dict(e1=["counter_skipq", "counter_3t", "counter_range", "ticket_skip", "ticket_3t", "ticket_owner"],
                 inv=["Inv_C06", "Inv_C01", "Inv_C02", "Inv_C04"], bundles=["core"],
                 extra_flags={"skip": ["NoDup", "Index", "Value", "ThreadOrder", "RealTime"]}),
     "C07": dict(e1=["ticket_pulls", "ticket_skip", "ticket_comp", "ticket_3t", "ticket_owner"],
-                inv=["Inv_C07_NoRace", "Inv_C07_Mutex"], bundles=["core"], hb=True,
+                inv=["Inv_C07_NoRace", "Inv_C07_Mutex"], bundles=["core"], hb=True, revive=True,
                 only=lambda f: f["fam"] == "ticket"),
-    "C08": dict(e1=[], inv=[], bundles=["core"], only=lambda f: f["consuming"]),
+    "C08": dict(e1=[], inv=[], bundles=["core", "panic"], only=lambda f: f["consuming"]),
     "C09": dict(e1=["counter_pulls", "counter_skipq", "counter_comp", "counter_3t", "ticket_pulls", "ticket_skip", "ticket_comp", "ticket_3t", "ticket_query"],
-                inv=["Inv_C09_LockFree"], bundles=["core", "freeze"], deadlock=True),
+                inv=["Inv_C09_LockFree"], bundles=["core", "freeze"], deadlock=True, revive=True),
     "C10": dict(e1=["counter_owner", "counter_range", "ticket_owner"], inv=["Inv_C10"], bundles=["core"]),
     "C11": dict(e1=["counter_skipq", "counter_owner", "counter_3t", "ticket_skip", "ticket_query", "ticket_owner"], inv=["Inv_C11"], bundles=["core"]),
     "C12": dict(e1=["counter_comp", "ticket_comp"], inv=["Inv_C12", "Inv_C01", "Inv_C02"], bundles=["core"],
                 extra_flags={"comp": ["NoDup", "NoLoss", "Index", "Hang"]}),
     "C13": dict(e1=[], inv=[], bundles=["twin"], flags=["Differs", "CloneCount", "SrcDropped", "SrcModified"]),
+    "C14": dict(e1=[], inv=[], bundles=["lowlevel"], flags=["OwnTwice", "NoDup", "OwnGarbage", "Abort"], static=True),
     "C15": dict(e1=[], inv=[], bundles=["core"], only=lambda f: f["consuming"]),
+    "C16": dict(e1=[], inv=[], bundles=["boundary"], flags=["Boundary", "BoundaryAfterWrap"]),
     "C17": dict(e1=[], inv=[], bundles=["dual"], flags=["Differs", "Abort", "Panic"]),
     "C18": dict(e1=["ticket_panic1", "ticket_panic2"], inv=["Inv_C01", "Inv_C07_Mutex"], bundles=["panic"], deadlock=True,
                 flags=["Hang", "NoDup", "OwnTwice", "OwnNever", "OwnGarbage", "Mutex"]),
+    "C19": dict(e1=["counter_multi"], inv=["Inv_C19", "Inv_C01", "Inv_C02", "Inv_C04", "Inv_C10", "Inv_C11"], bundles=["multi", "core"],
+                flags=["RefIdentity", "SrcModified", "SrcDropped"],
+                extra_flags={"multi": ["NoDup", "NoLoss", "Index", "Value", "Prefix", "NoFalseEnd", "ThreadOrder", "RealTime", "SeqWrong",
+                                       "LenWrong", "EndSticks", "SkipSticks", "ChunkLen", "ChunkShort", "OutOfRange"]},
+                only=lambda f: not f["consuming"] and f["fam"] == "counter"),
 }
 
 LEVEL_TEXT = {
@@ -302,13 +357,15 @@ def decide(pid, tier, seed, t0):
         bundles.append(b)
         only = plan.get("only")
         runs = b["runs"]
-        rel = {rid for rid, f in runs.items() if (only is None or only(f))}
+        # runs with a non-fused source are judged only by the properties that say something about them
+        rel = {rid for rid, f in runs.items() if (only is None or only(f)) and (f["suite"] != "revive" or plan.get("revive"))}
         relevant += len(rel)
         nontrivial += sum(1 for rid in rel if runs[rid]["overlap"] or runs[rid]["nthreads"] == 0)
         vio = list(b["viol"].get("TraceProps", []))
         if plan.get("hb"):
             vio += b["viol"].get("TraceHB", [])
         vio += b["viol"].get("TraceTwin", [])
+        vio += b["viol"].get("TraceBoundary", [])
         extra = plan.get("extra_flags", {})
         per_run = {}
         for v in vio:
@@ -320,6 +377,8 @@ def decide(pid, tier, seed, t0):
             if not ok and "skip" in extra and f["skip"] and fl in extra["skip"]:
                 ok = True
             if not ok and "comp" in extra and f["suite"] == "comp" and fl in extra["comp"]:
+                ok = True
+            if not ok and "multi" in extra and f["suite"] == "multi" and fl in extra["multi"]:
                 ok = True
             if ok:
                 per_run.setdefault(rid, []).append(fl)
@@ -351,6 +410,15 @@ def decide(pid, tier, seed, t0):
             rid = sorted((r for r in rel if not r.startswith("b")), key=int)[min(len(rel) - 1, 7 * (len(samples) + 1)) % max(1, len([r for r in rel if not r.startswith("b")]))]
             tr = run_trace(b["workdir"], int(rid))
             samples.append({"run": int(rid), "facts": runs[rid], "trace_head": tr[:25]})
+    # ---- static clauses of C14: TLC-enumerated programs given to the compiler ------------------------
+    static_info = None
+    if plan.get("static"):
+        static_info, svio = static_c14(tier, known, seen_flags)
+        for v in svio:
+            violations.append(v)
+        relevant += static_info["programs"]
+        nontrivial += static_info["programs"]
+        samples = samples + static_info["samples"]
     # ---- verdict --------------------------------------------------------------------------------
     for kid, (n, k) in sorted(seen_flags.items()):
         print("KNOWN-FINDING: property=%s %s (%s; %d runs)" % (pid, k["what"], kid, n))
@@ -363,7 +431,8 @@ def decide(pid, tier, seed, t0):
             shown += 1
     if violations and not shown:
         print("VIOLATION property=%s replay=%s" % (pid, violations[0][2]))
-    write_evidence(pid, tier, seed, t0, e1_results, bundles, relevant, nontrivial, samples, violations, notes, seen_flags)
+    write_evidence(pid, tier, seed, t0, e1_results, bundles, relevant, nontrivial, samples, violations, notes, seen_flags,
+                   extra=static_info)
     print("%s: %s  (E1: %d configurations, %d states; E2: %d runs; %.0f s)" % (
         pid, "VIOLATED" if violations else "held on everything explored", len(e1_results),
         sum(r["states"] for r in e1_results), relevant, time.time() - t0))
@@ -380,7 +449,43 @@ def write_replay(pid, name, obj):
     return path
 
 
-def write_evidence(pid, tier, seed, t0, e1, bundles, relevant, nontrivial, samples, violations, notes, known_seen):
+def static_c14(tier, known, seen_flags):
+    import probes
+    mx = 5 if tier == "quick" else 6
+    rows = []
+    states = 0
+    for part in ("threads", "borrows"):
+        g = engine.generate("bounds_" + part, "Bounds", {"Part": part, "MaxStmts": mx}, "all", spec="Spec", tag="ROW", inv="Emit")
+        rows += g["behaviours"]
+        states += g["states"]
+    key = "probes_%s_%s_%d" % (engine.repo_hash(), engine.verif_hash(), len(rows))
+    c = engine.cache_get(key)
+    if c is None:
+        res = probes.compile_rows(rows)
+        c = {"results": [[r, ok, codes] for r, ok, codes in res]}
+        engine.cache_put(key, c)
+    res = [(r, ok, codes) for r, ok, codes in c["results"]]
+    bad = probes.judge(res)
+    vio = []
+    for row, what in bad:
+        facts = {"kind": row["kind"], "row": row, "ops": [], "suite": "static"}
+        kf = [k for k in known if k["property"] == "C14" and k.get("static") and
+              all(row.get(a) == b for a, b in k["static"].items())]
+        if kf:
+            seen_flags.setdefault(kf[0]["id"], [0, kf[0]])[0] += 1
+            continue
+        src = probes.render_threads(row) if row["part"] == "threads" else probes.render_borrows(row)
+        path = write_replay("C14", "static-%d" % len(vio), {"engine": "compile-probe", "row": row, "verdict": what, "program": src})
+        vio.append(("compile probe %s" % json.dumps(row)[:120], what, path))
+    info = {"programs": len(rows), "must_reject": sum(1 for r in rows if r["reject"]),
+            "must_accept": sum(1 for r in rows if r["accept"]), "compiled": sum(1 for r in res if r[1]),
+            "disagreements_checked": len(bad), "bounds_states": states,
+            "samples": [{"row": rows[0], "program": probes.render_threads(rows[0])},
+                        {"row": rows[-1], "program": probes.render_borrows(rows[-1])}]}
+    return info, vio
+
+
+def write_evidence(pid, tier, seed, t0, e1, bundles, relevant, nontrivial, samples, violations, notes, known_seen, extra=None):
     states = sum(r["states"] for r in e1)
     trans = sum(r["transitions"] for r in e1)
     cov = {
@@ -401,6 +506,16 @@ def write_evidence(pid, tier, seed, t0, e1, bundles, relevant, nontrivial, sampl
         "notes": notes,
         "known_findings_seen": {k: v[0] for k, v in known_seen.items()},
     }
+    if extra:
+        cov["static"] = {k: v for k, v in extra.items() if k != "samples"}
+        cov["programs"] = extra["programs"]
+        cov["disagreements_checked"] = extra["disagreements_checked"]
+        cov["explanation"] = ("static clauses: TLC enumerates the finite family of minimal client programs from spec/Bounds.tla "
+                              "(thread-safety capabilities x constructors x uses; borrow programs up to %d statements) with the "
+                              "verdict of the capability model; each program is compiled against the current crate and the "
+                              "compiler's verdict (accept / reject with a thread-safety or borrow error) is compared with the "
+                              "model's. dynamic clause: sequences of safe public calls incl. the low-level AtomicIter methods "
+                              "are executed and the ownership ledger is validated by TraceProps." % (5 if tier == "quick" else 6))
     if not cov["samples"]:
         cov["samples"] = [{"note": "no run of this bundle is relevant to the property"}]
     if states == 0:
@@ -419,7 +534,8 @@ def write_evidence(pid, tier, seed, t0, e1, bundles, relevant, nontrivial, sampl
         json.dump(ev, f, indent=1)
 
 
-PLAN_LEVEL = {"C08": "exploration", "C15": "exploration", "C13": "translation_validation", "C17": "translation_validation"}
+PLAN_LEVEL = {"C08": "exploration", "C15": "exploration", "C13": "translation_validation", "C17": "translation_validation",
+              "C14": "other", "C16": "exploration"}
 
 
 def replay(pid, path):
